@@ -466,9 +466,17 @@ def evaluate(ctx, cases, use_lean=True):
             if model is None:
                 ctx.fail('corr', c, f"driver rejected the request: {o[:200]}", dict(site='driver', what='protocol'))
                 continue
-        if c.get('off_sky_inside'):
+        off_in = 0
+        if c.get('kind') == 'limb':          # re-evaluated on the tree under test (so that a replay judges the current code)
+            try:
+                wcs_l, _, _ = sky_of(c['header'], c['H'], c['W'])
+                oracle_inside(wcs_l, make_region(c['region']), c['H'], c['W'])
+                off_in = _history['off_sky_inside']
+            except Exception:
+                off_in = 0
+        if off_in:
             ctx.fail('spec', dict(c, pretty=base.pretty(c)),
-                     f"Region.sky_within reports {c['off_sky_inside']} pixel centres that have NO sky position (beyond the limb "
+                     f"Region.sky_within reports {off_in} pixel centres that have NO sky position (beyond the limb "
                      f"of the {c['header']['CTYPE1'][-3:]} projection) as inside the region",
                      dict(site='Region.sky_within', clause='no-sky-position-inside', region=True))
         n0 = len(ctx.failures)
